@@ -711,6 +711,19 @@ CORPUS = [
 ]
 
 
+def grid_sessions():
+    """Every field x every listed value of its kind (and of the other kinds): assign, echo, list."""
+    out = []
+    vals = BOOL_OK + BOOL_BAD + FMT_VALS + STR_VALS
+    for name in FIELDS:
+        for chunk in range(0, len(vals), 4):
+            lines = []
+            for v in vals[chunk:chunk + 4]:
+                lines += [f'.set {name} {v}', f'.set {name}']
+            out.append({'ledger': 'B', 'format': 'text', 'numberify': False, 'lines': lines + ['.set']})
+    return out
+
+
 def show(case):
     return '[%s;%s;%d%s%s] ' % (case['ledger'], case['format'], case['numberify'],
                                 ';stdout' if case.get('same_stdout') else '', ';quiet' if case.get('quiet') else '') + ' | '.join(repr(l)[1:-1] for l in case['lines'])
@@ -1027,12 +1040,13 @@ def shrink_cli(case, model_of):
 
 def run(tier, rng):
     violations = []
-    n_sessions = 260 if tier == 'quick' else 4000
+    n_sessions = 240 if tier == 'quick' else 4000
     n_cli = 120 if tier == 'quick' else 1200
     n_pure = 1500 if tier == 'quick' else 12000
     for k in LEDGERS:
         World.get(k)
-    cases = [dict(c) for c in CORPUS] + [gen_session(rng) for _ in range(n_sessions)]
+    grid = grid_sessions()
+    cases = [dict(c) for c in CORPUS] + grid + [gen_session(rng) for _ in range(n_sessions)]
     models = model_sessions(cases)
     results = core.pmap(_check_case, list(zip(cases, models)))
     seen = set()
@@ -1138,10 +1152,13 @@ def run(tier, rng):
                 'case/whitespace/semicolon variants, garbage, .run NAME/*/listing on 3 generated ledgers (with/without '
                 'named queries and load errors), informational and unknown commands; after every step all settings '
                 '(vars(settings)) and the text on outfile/stdout/stderr, exception and return value are compared; '
-                'non-trivial = distinct session in which a setting changed and a statement was typed. CLI: random '
+                'non-trivial = distinct session in which a setting changed and a statement was typed; plus a grid: every '
+                'field x every listed value (assign, echo, list). CLI: random '
                 '-f/-m/-o/-q/QUERY|stdin combinations through CliRunner. Pure: onecmd dispatch on an instrumented shell, '
                 'shlex.split/repr/strip/int against CPython',
-        'samples': [show(c) for c in cases[len(CORPUS):len(CORPUS) + 5]] + [show_cli(c) for c in cli_cases[2:5]],
+        'samples': [show(c) for c in cases[len(CORPUS) + len(grid):len(CORPUS) + len(grid) + 5]]
+                   + [show_cli(c) for c in cli_cases[2:5]],
+        'grid_sessions(field x value)': len(grid),
         'traces_validated_against_impl': len(cases) + len(cli_cases),
         'sessions': len(cases), 'session_steps': steps, 'cli_runs': len(cli_cases), 'pure_helper_cases': npure,
         'event_histogram': line_kinds, 'set_arity_histogram': set_arity, 'format_in_effect_histogram': fmt_hist,
